@@ -186,9 +186,28 @@ pub fn run(tier: Tier) -> i32 {
                     items.push((q, 1));
                 }
             }
+            // header dictionary sizes that are not a multiple of 16 / not a power of two: a copy just beyond them
+            for hd in [4097u32, 5000, 6145] {
+                let target = hd as usize + 7;
+                let mut p: Vec<Sym> = (0..64u32).map(|b| Sym::L(((b * 67 + 3) & 0xFF) as u8)).collect();
+                let mut produced = 64;
+                while produced + 273 <= target {
+                    p.push(Sym::M(64, 273));
+                    produced += 273;
+                }
+                while produced < target {
+                    p.push(Sym::L((produced * 3) as u8));
+                    produced += 1;
+                }
+                for over in [1u32, 2, 7, 8, 15, 16] {
+                    let mut q = p.clone();
+                    q.push(Sym::M(hd + over, 3));
+                    items.push((q, hd));
+                }
+            }
             par_for(items.len() as u64, |i| {
                 let (prog, hd) = &items[i as usize];
-                let Some((payload, prefix_out, size)) = build_invalid(3, 0, 2, 4096, prog) else {
+                let Some((payload, prefix_out, size)) = build_invalid(3, 0, 2, (*hd).max(4096) as u64, prog) else {
                     ctx.machinery_error(&format!("public-API invalid program is not 'valid prefix + 1 invalid': {}", prog_str(prog)));
                 };
                 ctx.eval(1);
